@@ -21,6 +21,45 @@ import (
 	rpc "github.com/libp2p/go-libp2p-gorpc"
 )
 
+// vC07Rec records, while switched on, the component calls a handler causes on the called peer ("IPFS.RepoStat",
+// "Consensus.AddPeer", "Informer.GetMetric", "Monitor.PublishMetric", "Callback.Cluster.ID" ...): what an endpoint DOES.
+type vC07Recorder struct {
+	mu   sync.Mutex
+	on   bool
+	effs []string
+}
+
+var vC07Rec = &vC07Recorder{}
+
+func (r *vC07Recorder) add(e string) {
+	r.mu.Lock()
+	if r.on {
+		seen := false
+		for _, x := range r.effs {
+			if x == e {
+				seen = true
+			}
+		}
+		if !seen {
+			r.effs = append(r.effs, e)
+		}
+	}
+	r.mu.Unlock()
+}
+func (r *vC07Recorder) start() {
+	r.mu.Lock()
+	r.on, r.effs = true, nil
+	r.mu.Unlock()
+}
+func (r *vC07Recorder) stop() []string {
+	r.mu.Lock()
+	defer r.mu.Unlock()
+	r.on = false
+	out := append([]string{}, r.effs...)
+	r.effs = nil
+	return out
+}
+
 // the part of a consensus component that decides trust (real raft / real crdt objects are plugged in here)
 type vC07TrustSrc interface {
 	IsTrustedPeer(context.Context, peer.ID) bool
@@ -52,26 +91,49 @@ func (c *vC07Cons) Ready(context.Context) <-chan struct{} {
 	return ch
 }
 func (c *vC07Cons) LogPin(ctx context.Context, p *api.Pin) error {
+	vC07Rec.add("Consensus.LogPin")
 	if p == nil || !p.Cid.Defined() {
 		return errors.New("bad pin")
 	}
 	return c.st.Add(ctx, p)
 }
 func (c *vC07Cons) LogUnpin(ctx context.Context, p *api.Pin) error {
+	vC07Rec.add("Consensus.LogUnpin")
 	if p == nil || !p.Cid.Defined() {
 		return errors.New("bad pin")
 	}
 	return c.st.Rm(ctx, p.Cid)
 }
-func (c *vC07Cons) AddPeer(context.Context, peer.ID) error          { return nil }
-func (c *vC07Cons) RmPeer(context.Context, peer.ID) error           { return nil }
-func (c *vC07Cons) State(context.Context) (state.ReadOnly, error)   { return c.st, nil }
-func (c *vC07Cons) Leader(context.Context) (peer.ID, error)         { return c.self, nil }
-func (c *vC07Cons) WaitForSync(context.Context) error               { return nil }
-func (c *vC07Cons) Clean(context.Context) error                     { return nil }
-func (c *vC07Cons) Peers(context.Context) ([]peer.ID, error)        { return []peer.ID{c.self}, nil }
-func (c *vC07Cons) Trust(ctx context.Context, p peer.ID) error      { return c.trust.Trust(ctx, p) }
-func (c *vC07Cons) Distrust(ctx context.Context, p peer.ID) error   { return c.trust.Distrust(ctx, p) }
+func (c *vC07Cons) AddPeer(context.Context, peer.ID) error {
+	vC07Rec.add("Consensus.AddPeer")
+	return nil
+}
+func (c *vC07Cons) RmPeer(context.Context, peer.ID) error {
+	vC07Rec.add("Consensus.RmPeer")
+	return nil
+}
+func (c *vC07Cons) State(context.Context) (state.ReadOnly, error) {
+	vC07Rec.add("Consensus.State")
+	return c.st, nil
+}
+func (c *vC07Cons) Leader(context.Context) (peer.ID, error) {
+	vC07Rec.add("Consensus.Leader")
+	return c.self, nil
+}
+func (c *vC07Cons) WaitForSync(context.Context) error { return nil }
+func (c *vC07Cons) Clean(context.Context) error       { vC07Rec.add("Consensus.Clean"); return nil }
+func (c *vC07Cons) Peers(context.Context) ([]peer.ID, error) {
+	vC07Rec.add("Consensus.Peers")
+	return []peer.ID{c.self}, nil
+}
+func (c *vC07Cons) Trust(ctx context.Context, p peer.ID) error {
+	vC07Rec.add("Consensus.Trust")
+	return c.trust.Trust(ctx, p)
+}
+func (c *vC07Cons) Distrust(ctx context.Context, p peer.ID) error {
+	vC07Rec.add("Consensus.Distrust")
+	return c.trust.Distrust(ctx, p)
+}
 func (c *vC07Cons) IsTrustedPeer(ctx context.Context, p peer.ID) bool {
 	c.mu.Lock()
 	c.asked = append(c.asked, p)
@@ -94,32 +156,61 @@ func (f *vC07IPFS) drive() {
 func (f *vC07IPFS) SetClient(*rpc.Client)          {}
 func (f *vC07IPFS) Shutdown(context.Context) error { return nil }
 func (f *vC07IPFS) ID(context.Context) (*api.IPFSID, error) {
+	vC07Rec.add("IPFS.ID")
 	return &api.IPFSID{ID: test.PeerID1}, nil
 }
-func (f *vC07IPFS) Pin(context.Context, *api.Pin) error  { f.drive(); return nil }
-func (f *vC07IPFS) Unpin(context.Context, cid.Cid) error { f.drive(); return nil }
-func (f *vC07IPFS) PinLsCid(context.Context, *api.Pin) (api.IPFSPinStatus, error) {
-	return api.IPFSPinStatusUnpinned, nil
-}
-func (f *vC07IPFS) PinLs(context.Context, string) (map[string]api.IPFSPinStatus, error) {
-	return map[string]api.IPFSPinStatus{}, nil
-}
-func (f *vC07IPFS) ConnectSwarms(context.Context) error              { return nil }
-func (f *vC07IPFS) SwarmPeers(context.Context) ([]peer.ID, error)    { return []peer.ID{}, nil }
-func (f *vC07IPFS) ConfigKey(string) (interface{}, error)            { return "v", nil }
-func (f *vC07IPFS) RepoStat(context.Context) (*api.IPFSRepoStat, error) {
-	return &api.IPFSRepoStat{RepoSize: 1, StorageMax: 2}, nil
-}
-func (f *vC07IPFS) RepoGC(context.Context) (*api.RepoGC, error) {
-	f.drive()
-	return &api.RepoGC{Keys: []api.IPFSRepoGC{}}, nil
-}
-func (f *vC07IPFS) Resolve(context.Context, string) (cid.Cid, error) { return test.Cid1, nil }
-func (f *vC07IPFS) BlockPut(context.Context, *api.NodeWithMeta) error {
+func (f *vC07IPFS) Pin(context.Context, *api.Pin) error {
+	vC07Rec.add("IPFS.Pin")
 	f.drive()
 	return nil
 }
-func (f *vC07IPFS) BlockGet(context.Context, cid.Cid) ([]byte, error) { return []byte("x"), nil }
+func (f *vC07IPFS) Unpin(context.Context, cid.Cid) error {
+	vC07Rec.add("IPFS.Unpin")
+	f.drive()
+	return nil
+}
+func (f *vC07IPFS) PinLsCid(context.Context, *api.Pin) (api.IPFSPinStatus, error) {
+	vC07Rec.add("IPFS.PinLsCid")
+	return api.IPFSPinStatusUnpinned, nil
+}
+func (f *vC07IPFS) PinLs(context.Context, string) (map[string]api.IPFSPinStatus, error) {
+	vC07Rec.add("IPFS.PinLs")
+	return map[string]api.IPFSPinStatus{}, nil
+}
+func (f *vC07IPFS) ConnectSwarms(context.Context) error {
+	vC07Rec.add("IPFS.ConnectSwarms")
+	return nil
+}
+func (f *vC07IPFS) SwarmPeers(context.Context) ([]peer.ID, error) {
+	vC07Rec.add("IPFS.SwarmPeers")
+	return []peer.ID{}, nil
+}
+func (f *vC07IPFS) ConfigKey(string) (interface{}, error) {
+	vC07Rec.add("IPFS.ConfigKey")
+	return "v", nil
+}
+func (f *vC07IPFS) RepoStat(context.Context) (*api.IPFSRepoStat, error) {
+	vC07Rec.add("IPFS.RepoStat")
+	return &api.IPFSRepoStat{RepoSize: 1, StorageMax: 2}, nil
+}
+func (f *vC07IPFS) RepoGC(context.Context) (*api.RepoGC, error) {
+	vC07Rec.add("IPFS.RepoGC")
+	f.drive()
+	return &api.RepoGC{Keys: []api.IPFSRepoGC{}}, nil
+}
+func (f *vC07IPFS) Resolve(context.Context, string) (cid.Cid, error) {
+	vC07Rec.add("IPFS.Resolve")
+	return test.Cid1, nil
+}
+func (f *vC07IPFS) BlockPut(context.Context, *api.NodeWithMeta) error {
+	vC07Rec.add("IPFS.BlockPut")
+	f.drive()
+	return nil
+}
+func (f *vC07IPFS) BlockGet(context.Context, cid.Cid) ([]byte, error) {
+	vC07Rec.add("IPFS.BlockGet")
+	return []byte("x"), nil
+}
 
 // vC07Tracker: PinTracker that reports everything as pinned
 type vC07Tracker struct {
@@ -129,17 +220,73 @@ type vC07Tracker struct {
 func (t *vC07Tracker) info(c cid.Cid) *api.PinInfo {
 	return &api.PinInfo{Cid: c, Peer: t.self, PinInfoShort: api.PinInfoShort{Status: api.TrackerStatusPinned}}
 }
-func (t *vC07Tracker) SetClient(*rpc.Client)                    {}
-func (t *vC07Tracker) Shutdown(context.Context) error           { return nil }
-func (t *vC07Tracker) Track(context.Context, *api.Pin) error    { return nil }
-func (t *vC07Tracker) Untrack(context.Context, cid.Cid) error   { return nil }
+func (t *vC07Tracker) SetClient(*rpc.Client)          {}
+func (t *vC07Tracker) Shutdown(context.Context) error { return nil }
+func (t *vC07Tracker) Track(context.Context, *api.Pin) error {
+	vC07Rec.add("Tracker.Track")
+	return nil
+}
+func (t *vC07Tracker) Untrack(context.Context, cid.Cid) error {
+	vC07Rec.add("Tracker.Untrack")
+	return nil
+}
 func (t *vC07Tracker) StatusAll(context.Context, api.TrackerStatus) []*api.PinInfo {
+	vC07Rec.add("Tracker.StatusAll")
 	return []*api.PinInfo{t.info(test.Cid1)}
 }
-func (t *vC07Tracker) Status(_ context.Context, c cid.Cid) *api.PinInfo { return t.info(c) }
+func (t *vC07Tracker) Status(_ context.Context, c cid.Cid) *api.PinInfo {
+	vC07Rec.add("Tracker.Status")
+	return t.info(c)
+}
 func (t *vC07Tracker) RecoverAll(context.Context) ([]*api.PinInfo, error) {
+	vC07Rec.add("Tracker.RecoverAll")
 	return []*api.PinInfo{t.info(test.Cid1)}, nil
 }
 func (t *vC07Tracker) Recover(_ context.Context, c cid.Cid) (*api.PinInfo, error) {
+	vC07Rec.add("Tracker.Recover")
 	return t.info(c), nil
+}
+
+// vC07Mon: the shared monitor fake with its calls recorded
+type vC07Mon struct{ *vMonitor }
+
+func (m *vC07Mon) LogMetric(ctx context.Context, mt *api.Metric) error {
+	vC07Rec.add("Monitor.LogMetric")
+	return m.vMonitor.LogMetric(ctx, mt)
+}
+func (m *vC07Mon) PublishMetric(ctx context.Context, mt *api.Metric) error {
+	vC07Rec.add("Monitor.PublishMetric")
+	return m.vMonitor.PublishMetric(ctx, mt)
+}
+func (m *vC07Mon) LatestMetrics(ctx context.Context, name string) []*api.Metric {
+	vC07Rec.add("Monitor.LatestMetrics")
+	return m.vMonitor.LatestMetrics(ctx, name)
+}
+func (m *vC07Mon) MetricNames(ctx context.Context) []string {
+	vC07Rec.add("Monitor.MetricNames")
+	return m.vMonitor.MetricNames(ctx)
+}
+
+// vC07Informer: an informer that, like informer/disk, asks the IPFS connector for repo/stat when it is run
+type vC07Informer struct {
+	name string
+	ipfs IPFSConnector
+}
+
+func (i *vC07Informer) SetClient(*rpc.Client)          {}
+func (i *vC07Informer) Shutdown(context.Context) error { return nil }
+func (i *vC07Informer) Name() string                   { return i.name }
+func (i *vC07Informer) GetMetric(ctx context.Context) *api.Metric {
+	vC07Rec.add("Informer.GetMetric")
+	i.ipfs.RepoStat(ctx)
+	return &api.Metric{Name: i.name, Valid: true}
+}
+
+// vC07Callback: the "Cluster" service of a remote caller: it only answers the Cluster.ID call-back of the join handshake
+type vC07Callback struct{ id peer.ID }
+
+func (f *vC07Callback) ID(ctx context.Context, in struct{}, out *api.ID) error {
+	vC07Rec.add("Callback.Cluster.ID")
+	*out = api.ID{ID: f.id, Peername: "vC07-remote"}
+	return nil
 }
